@@ -73,7 +73,7 @@ class FakeService:
         c = getattr(self, "client", None)
         if c is not None:
             c.log.append(("stopService",))
-        if c is None or c.conn is None:
+        if c is None or (c.conn is None and not c.tcp):
             return defer.succeed(None)
         if self.stopping is None or self.stopping.called:
             self.stopping = defer.Deferred()
@@ -157,6 +157,7 @@ class Client:
         self.api_errors = []    # exceptions raised to the application by API calls
         self.internal = []      # exceptions that escaped ws_open/ws_message/turns (internal failures)
         self.conn = None
+        self.tcp = False             # a TCP connection exists whose WebSocket handshake has not finished
         self.ever_opened = False
         self.helper = None
         self.eq = EventualQueue(world.clock)
@@ -257,10 +258,22 @@ class World:
             c.internal.append((type(e).__name__, str(e)[:200]))
             return type(e).__name__
 
+    def tcp_up(self, ci):
+        """the ClientService gets its TCP connection; the WebSocket negotiation is still under way"""
+        c = self.clients[ci]
+        if c.conn is not None or c.tcp or not c.svc.started:
+            return "noop"
+        c.tcp = True
+        for d in c.svc.when_connected:
+            if not d.called:
+                d.callback(None)
+        return "ok"
+
     def open(self, ci):
         c = self.clients[ci]
         if c.conn is not None or not c.svc.started:
             return "noop"
+        c.tcp = False
         conn = Conn(self, c)
         c.conn = conn
         c.ever_opened = True
@@ -307,6 +320,11 @@ class World:
         r = "ok"
         if c.conn is not None:
             r = self.drop(ci)
+        elif c.tcp:
+            # the negotiating connection goes away: autobahn reports onClose() without onOpen() while the service
+            # is still stopping (a stopService() issued from there gets the same pending Deferred)
+            r = self._guard(c, lambda: c.rc.ws_close(False, 1006, "connection was closed uncleanly (stopped during handshake)")) or "ok"
+            c.tcp = False
         err = self._guard(c, lambda: d.callback(None))
         return err or r
 
@@ -329,6 +347,7 @@ class World:
         c = self.clients[ci]
         if c.conn is not None or not c.svc.started:
             return "noop"
+        c.tcp = False
         return self._guard(c, lambda: c.rc.ws_close(False, 1006, "connection was closed uncleanly (handshake failed)")) or "ok"
 
     def turn(self, ci):
